@@ -223,7 +223,7 @@ def obligations(tier, seed):
                               bound="hit/hold lists whose row labels are not 0..n-1 (%s)" % lab))
     obs.append(Obligation("C05/write/BME/no_sample_default=0Z", partial(ob_write, "BME", HITS["basic"], [(4, 1, F(5, 2), b"unknown.wav"), (5, F(7, 2), 9, b"")], [0, 4], default_id=b"0Z"),
                           bound="objects with unknown samples written with no_sample_default=0Z (hits and hold heads)"))
-    for n in ((400,) if quick else (400, 1295)):
+    for n in ((400,) if quick else (400, 999)):  # (measure numbers have three digits: 1000 measures is the most a file can hold)
         obs.append(Obligation("C05/write/many-tempos/%d" % n, partial(ob_many_tempos, n), bound="%d tempo points on consecutive measure lines (base-36 ids up to %d), one symbolic tempo" % (n, n),
                               max_paths=50, timeout_s=600))
     obs.append(Obligation("C05/write/BME/no-sample-table", partial(ob_write, "BME", HITS["basic"], HOLDS["basic"], [0, 4], samples=False), bound="chart without a #WAV table (default id for every object)"))
